@@ -41,7 +41,7 @@ THEOREMS = [
     "view_is_flattened", "lookup_priority", "fallback_then_default", "override_wins", "master_default",
     "reprioritise", "profiles_end_profileless", "list_tuple_dict_consistent", "bool_eight_spellings",
     "replace_only_known", "text_roundtrip_partial",
-    "c19_stale_refuted", "c19_fbsect_refuted", "c19_mkey_refuted", "c19_fmt_refuted",
+    "c19_stale_refuted", "c19_fbsect_refuted", "c19_mkey_refuted", "c19_fmt_refuted", "c19_metanl_refuted",
 ]
 
 REQ = "From Verif Require Import Model.C19_Config.\nOpen Scope string_scope."
@@ -60,6 +60,10 @@ QUIRKS = {
         "_replace: an unknown variable with a format specifier is formatted with itself ('{x:>10}' -> '   {x:>10}', "
         "'{x:%Y}' -> ValueError) instead of being kept; also hits every such value read by update_from_file"),
 }
+
+QUIRKS[16] = ("c19_meta_newline_on_readback",
+              "update_from_file keeps the line breaks of a continued metadata value (only the entry value gets "
+              "'\\n' -> ' '): a help text that write_to_file wraps is read back with '\\n' in it")
 
 SECS = ["sa", "sb"]
 KEYS = ["k1", "k2", "k3"]
@@ -333,8 +337,8 @@ WORDS = ["alpha", "Beta", "gnss", "x", "vlbi", "ON", "sa", "k1"]
 
 
 def gen_value(rng, simple=False):
-    kind = rng.choice(["word", "word", "number", "list", "path", "var", "bool", "dict", "empty", "spaced"] if not simple
-                      else ["word", "number", "list", "path", "var", "bool"])
+    kind = rng.choice(["word", "word", "number", "list", "path", "var", "bool", "dict", "empty", "spaced", "hyph", "long"]
+                      if not simple else ["word", "number", "list", "path", "var", "bool"])
     if kind == "word":
         return rng.choice(WORDS)
     if kind == "number":
@@ -358,7 +362,45 @@ def gen_value(rng, simple=False):
         return ""
     if kind == "spaced":
         return rng.choice([" 12 ", "a  b", "x ", " lead", "tab\there", "-5 "])
+    if kind == "hyph":
+        return gen_long_value(rng, rng.randrange(1, 5))
+    if kind == "long":
+        return gen_long_value(rng, rng.choice([6, 10, 16, 25, 40]))
     raise ValueError(kind)
+
+
+HYPH_WORDS = ["north-east-by-north", "ny-alesund-07", "2020-01-01", "2018-12-28/2019-01-15", "/data/obs-archive/rinex-v3/site-004.rnx",
+              "a-b", "x-", "-y", "well--known", "e-mail", "1-2-3-4-5-6-7-8-9", "plain", "{station}-{doy}", "gps:L1-C/A"]
+
+
+def gen_long_value(rng, n):
+    """Values whose `key = value` line exceeds the wrap widths, with hyphenated words (dates, paths, names) falling on the
+    wrap limit: textwrap must break neither inside words nor after hyphens (break_long_words/break_on_hyphens=False)."""
+    r = rng.random()
+    if r < 0.15:       # one over-long word
+        return "-".join(rng.choice(["segment", "x", "2020", "obs"]) for _ in range(n * 3))
+    lead = "x" * rng.randrange(0, 24)     # shifts the wrap position through the words
+    sep = rng.choice([" ", " ", ", ", ","]) if r < 0.8 else " "
+    words = [rng.choice(HYPH_WORDS) for _ in range(n)] if r < 0.6 else [rng.choice(HYPH_WORDS)] * n
+    return ((lead + " ") if lead else "") + sep.join(words)
+
+
+def textform_case(rng, i):
+    """A configuration of mostly long / hyphenated values; as_str at every width and the write -> read round trip."""
+    ops = []
+    for j in range(rng.randrange(2, 6)):
+        ops.append(dict(op="update", section=rng.choice(SECS), key=rng.choice(KEYS + ["log-dir", "a_key_name_of_more_than_thirty_chars"]),
+                        value=gen_long_value(rng, rng.choice([1, 3, 6, 10, 16, 25, 40])), profile=None, source="s",
+                        meta=rng.choice([None, None, {"help": gen_long_value(rng, rng.choice([3, 12, 30])), "type": "List[str]"}]),
+                        allow_new=True))
+    qs = [dict(q="layout")]
+    for w in (200, 60, 45):
+        qs.append(dict(q="as_str", width=w, metadata=(i + w) % 3 != 0))
+    qs.append(dict(q="readback", width=200, case_sensitive=True))
+    qs.append(dict(q="readback", width=rng.choice([50, 60, 80, 120]), case_sensitive=False))
+    for o in ops[:2]:
+        qs.append(dict(q="typed", section=o["section"], key=o["key"]))
+    return dict(name="cfg", ops=ops, queries=qs)
 
 
 VARS_POOL = [("yyyy", "2021"), ("doy", "032"), ("station", "zimm"), ("path_root", "/mnt/{yyyy}"), ("nested", "<{station}/{doy}>"),
@@ -694,6 +736,10 @@ def run(ctx):
             ext = rng.choice([("U", rng.choice(SECS), rng.choice(KEYS), rng.choice([None] + PROFS)),
                               ("P", tuple(rng.sample(PROFS, rng.randrange(0, 4))))])
             add(seq_case(seq + (ext,), rng.randrange(0, 4), rng), "sampled5")
+
+    # ---- T. text form: long values with hyphenated words on the wrap limit
+    for i in range(int(scale * (150 if ctx.quick() else 1200))):
+        add(textform_case(rng, i), "textform")
 
     # ---- B. random sequences up to length 30 over all operations
     n_rand = int(scale * (500 if ctx.quick() else 4000))
